@@ -181,6 +181,16 @@ public:
 	dispatch();
 	~dispatch();
 	
+# if __cplusplus >= 201103L
+	/* member-wise copy would share the command table and duplicate _err/_ctx ownership */
+	dispatch(const dispatch &) = delete;
+	dispatch &operator=(const dispatch &) = delete;
+# else
+    private:
+	dispatch(const dispatch &);
+	dispatch &operator=(const dispatch &);
+    public:
+# endif
 	bool set_default(uintptr_t);
 	void set_error(event_handler_t , void *);
 	
